@@ -12,7 +12,7 @@ LEVEL = 'exploration'
 BUDGET = {'quick': 150, 'thorough': 1800}
 CHUNK = 2
 RULE = ('Cases: 2..8 samples (related sequences with substitutions, N, private extra records; disjoint and identical '
-        'samples, samples whose k-mers are a strict subset of another sample\'s; a third of the cases with samples realising tables of all 15 ambiguity codes; output prefixes with and without dots) partitioned into 2..4 files in every order, merged flat or nested (merging merged files), a share with the first file given once more as last argument, or with the output overwriting the first / last input; the result of '
+        'samples, samples whose k-mers are a strict subset of another sample\'s; a third of the cases with samples realising tables of all 15 ambiguity codes; output prefixes with and without dots) partitioned into 2..4 files in every order (a dozen cases per run with 9..40 single-sample files in one call, one with 80 files under an open-file limit of 48, two with an input of exactly 2^12 / 2^14 rows), merged flat or nested (merging merged files), a share with the first file given once more as last argument, or with the output overwriting the first / last input; the result of '
         '`ska merge` is compared with one joint `ska build` of the same samples in the merged order (differential) and with '
         'the reference model; the stored merged object is also decoded through the harness (k-mer integers, rows, per-row counts, lengths of the parallel containers) and compared with the model.  k forced at 29/31/33/35 (width boundary) plus random odd k, both strand modes.  Refusal cases: '
         'a file with k+-2 or the opposite strand mode as first and as later argument must give a non-zero exit and leave no '
@@ -21,7 +21,8 @@ RULE = ('Cases: 2..8 samples (related sequences with substitutions, N, private e
 ASSUMPTIONS = ['the joint build is a run of the same binary (differential oracle); the model is the independent one',
                'sample names are s<i> (from file names) or, in a third of the cases, unusual legal names (punctuation, dots, a leading dash, non-ASCII; no white space, which separates the columns of a file list) given through file lists']
 REQUIRED = {t: ['merge:flat', 'merge:nested', 'refuse:k:first', 'refuse:k:later', 'refuse:rc:first', 'refuse:rc:later',
-                'width64', 'width128', 'padded_cells', 'samples_with_all_codes', 'dotted_output_prefix', 'stored_objects_checked', 'unusual_sample_names', 'subset_samples', 'merge:dup-arg', 'merge:out-is-first-input', 'merge:out-is-last-input'] for t in ('quick', 'thorough')}
+                'width64', 'width128', 'padded_cells', 'samples_with_all_codes', 'dotted_output_prefix', 'stored_objects_checked', 'unusual_sample_names', 'subset_samples', 'merge:dup-arg', 'merge:out-is-first-input', 'merge:out-is-last-input',
+                'merges_of_9+_files', 'inputs_with_exactly_2^n_rows', 'merges_under_a_low_open_file_limit'] for t in ('quick', 'thorough')}
 
 
 def builds(tier):
@@ -42,6 +43,19 @@ def plan(tier, seed, rng, scale):
         d['chk'] = (i % 7 == 0)
         d['refuse'] = (i % 4 == 0)
         d['codes'] = (i % 3 == 1)
+    extra = []
+    for i in range(int((12 if tier == 'quick' else 80) * max(scale, 0.25))):
+        # many files in one merge call (9..40, not only powers of two)
+        extra.append({'k': rng.choice([15, 31, 33]), 'rc': rng.random() < 0.7, 'nested': False, 'seed': rng.getrandbits(32) // 16 * 16 + 5,
+                      'manyfiles': [9, 10, 11, 12, 13, 17, 24, 33, 40][i % 9], 'chk': False, 'refuse': False, 'codes': False})
+    for i, p2 in enumerate([4096, 16384] if tier == 'quick' else [4096, 8192, 16384, 32768, 65536, 16384]):
+        # an input whose table has exactly 2^n rows
+        extra.append({'k': rng.choice([21, 31, 33]), 'rc': rng.random() < 0.7, 'nested': False, 'seed': rng.getrandbits(32) // 16 * 16 + 5,
+                      'pow2': p2, 'chk': False, 'refuse': False, 'codes': False})
+    extra.append({'k': 31, 'rc': True, 'nested': False, 'seed': rng.getrandbits(32) // 16 * 16 + 5, 'manyfiles': 80, 'nofile': 48,
+                  'chk': False, 'refuse': False, 'codes': False})
+    for j, d in enumerate(extra):
+        descs.insert(20 + 3 * j, d)
     return descs
 
 
@@ -78,7 +92,20 @@ def run_case(desc, ctx):
     k, rcmode = desc['k'], desc['rc']
     rng = random.Random(desc['seed'])
     ns = rng.randint(2, 8)
+    if desc.get('manyfiles'):
+        ns = desc['manyfiles']              # one sample per file, 9..40 files in one merge (or 80 under a low open-file limit)
     samples = gen_samples(rng, k, ns, codes=desc.get('codes', False) and rcmode)
+    if desc.get('pow2'):
+        # one input whose table has exactly 2^n rows (block sizes of conversions and writers): sample 0 gets random extra records
+        # until the model counts exactly that many
+        want = desc['pow2']
+        base0 = [G.rseq(rng, want + k - 1 - 200)]
+        while True:
+            n0 = len(M.build(base0, k, rcmode))
+            if n0 >= want:
+                break
+            base0.append(G.rseq(rng, min(want - n0, 200) + k - 1))
+        samples[0] = base0
     if ns >= 2 and rng.random() < 0.2 and not desc.get('codes'):
         # a sample whose k-mers are a strict subset of another's (a truncated assembly), sometimes placed in the file merged first
         i_, j_ = rng.sample(range(ns), 2)
@@ -111,7 +138,7 @@ def run_case(desc, ctx):
     if '.' in outname:
         res.count('dotted_output_prefix')
     # partition into 2..4 files, file order = a random permutation of the parts
-    nparts = rng.randint(2, min(4, ns))
+    nparts = rng.randint(2, min(4, ns)) if not (desc.get('manyfiles') or desc.get('pow2')) else ns
     idx = list(range(ns))
     rng.shuffle(idx)
     cuts = sorted(rng.sample(range(1, ns), nparts - 1))
@@ -160,7 +187,17 @@ def run_case(desc, ctx):
             if p0.returncode != 0:
                 p = p0
         else:
-            p = ctx.sh(b, 'merge', *margs, '-o', ctx.path(outname))
+            if desc.get('nofile'):
+                # a low limit on open files (batch systems, macOS default 256): inputs are read one after the other, so their
+                # number is not bounded by it
+                p = ctx.sh('bash', '-c', 'ulimit -n %d; exec "$@"' % desc['nofile'], 'bash', b, 'merge', *margs, '-o', ctx.path(outname))
+                res.count('merges_under_a_low_open_file_limit')
+            else:
+                p = ctx.sh(b, 'merge', *margs, '-o', ctx.path(outname))
+            if desc.get('manyfiles') and variant == 'rel':
+                res.count('merges_of_9+_files')
+            if desc.get('pow2') and variant == 'rel' and len(M.build(samples[0], k, rcmode)) == desc['pow2']:
+                res.count('inputs_with_exactly_2^n_rows')
         if variant == 'chk':
             res.count('chk_runs')
             if p.returncode != 0 and 'overflow' in p.stderr:
